@@ -5,9 +5,10 @@ import Mfi.Driver.IntegrD
 import Mfi.Driver.BankD
 import Mfi.Driver.TokenD
 import Mfi.Driver.GateD
+import Mfi.Driver.AuthD
 open Mfi.Driver
 
-def handlers : List (String → List Int → Option String) := [fxOp, panicOp, irOp, igOp, bankOp, tokOp, gateOp]
+def handlers : List (String → List Int → Option String) := [fxOp, panicOp, irOp, igOp, bankOp, tokOp, gateOp, authOp]
 
 def stepLine (line : String) : String :=
   match line.trimAscii.toString.splitOn " " with
